@@ -460,7 +460,9 @@ impl<'a> Exec<'a> {
                 self.reg_on_durable.insert(r, self.latest_durable);
             }
             (Some("M.get_data_root"), Call::BeginRead(r)) => {
-                if self.reg_on_durable.get(&r) == Some(&true) && !self.latest_durable {
+                // begin_read must notice that the root is newer than its registration and register again
+                // (next event: T.dealloc_read); if it returns instead, the reader is pinned below its root
+                if self.reg_on_durable.get(&r) == Some(&true) && !self.latest_durable && matches!(ev, Event::Done(_)) {
                     self.late_root_nd = true;
                 }
             }
